@@ -27,6 +27,7 @@ pub fn prop() -> HistProp {
         quick: 1500,
         thorough: 30000,
         mk: |_, _, _| Box::new(C04 { nontrivial: false }),
+        extra: None,
     }
 }
 
